@@ -1,6 +1,7 @@
 import LassoProofs.Lemmas.Paths
 import LassoProofs.Lemmas.THistory
 import LassoModel.Extracted
+import LassoProofs.Lemmas.Config
 /-
   C02 — canonical keys: equal strings share one key, different strings never do; lookups answer
   exactly "interned or not"; interning a present string changes nothing.
@@ -165,5 +166,12 @@ theorem lookup_comes_first :
     Extracted.internEffects.head? = some .fastGet ∧
     Extracted.internStaticEffects.head? = some .fastGet := by
   decide
+
+/-- The code this file's theorems are about is the same under every feature configuration: the regenerated
+census of conditional compilation contains import blocks, whole serde impls, optional-dependency impls and
+module declarations only, and no gate inside any function body (`Lemmas/Config.lean`). -/
+theorem same_code_under_every_feature_configuration :
+    (Extracted.cfgGates.all fun g => g.kind != .other) = true ∧ Extracted.bodyGates.isEmpty = true :=
+  Lasso.one_code_base_for_all_configurations
 
 end Lasso.C02
